@@ -2,7 +2,8 @@
    (Kronecker construction, ordering-matrix similarity transform) and MultiVector.asmatrix/frommatrix.
    hom_ok A is a boolean: for every pair of basis blades M(e_I) M(e_J) = signs[I,J] M(e_{I xor J}),
    column 0 of M(e_I) is the I-th unit vector (plus shape checks).  Statements only; proofs in
-   Theory/Matrix.v.  expr_as_matrix is NOT modelled (sympy collect/coeff/lambdify): see DESIGN. *)
+   Theory/Matrix.v.  expr_as_matrix: Model/ExprMatrix.v (coefficient extraction on expanded polynomials),
+   theorems C18_expr_as_matrix_* below (Theory/ExprMatrix.v); sympy's expand/collect/lambdify are read, not modelled. *)
 From KV Require Import Model.All Model.Matrix Theory.Matrix.
 Local Open Scope Z_scope.
 
@@ -159,6 +160,139 @@ Theorem C18_default_branch_all : forall sig start,
   matrix_basis (mk_default sig start false) = matrix_basis_default_branch (mk_default sig start false).
 Proof. exact matrix_basis_default_branch_all. Qed.
 Print Assumptions C18_default_branch_all.
+
+(* ---- expr_as_matrix (Model/ExprMatrix.v, Theory/ExprMatrix.v).  Coefficients of symbolic multivectors are expanded
+   polynomials: lists of terms (c, symbols with multiplicity) over ANY commutative ring R; [eval rho p] is the value at
+   a valuation rho of the symbols; A = expr_matrix xs ys has the entries A[i][j] = coeff_of x_j y_i (sympy's
+   `collect(expand(y_i), x).coeff(x_j)`: the terms in which x_j has exponent exactly 1, that factor removed);
+   mat_vec rho A xs = (sum_j eval rho A[i][j] * rho x_j)_i ---- *)
+From KV Require Import Model.ExprMatrix Theory.ExprMatrix.
+
+(* (a) A . coefficients(x) = coefficients(y) for every y linear in the distinct symbols xs, every ring, every valuation *)
+Theorem C18_expr_as_matrix_linear :
+  forall (R : Type) (rO rI : R) (radd rmul rsub : R -> R -> R) (ropp : R -> R),
+  ring_theory rO rI radd rmul rsub ropp (@eq R) ->
+  forall (rho : nat -> R) (xs : list nat) (ys : list (xpoly R)),
+  forallb (linear_in xs) ys = true -> NoDup xs ->
+  mat_vec R rO rI radd rmul rho (expr_matrix xs ys) xs = map (eval R rO rI radd rmul rho) ys.
+Proof. exact expr_matrix_linear. Qed.
+Print Assumptions C18_expr_as_matrix_linear.
+
+(* for ANY y (no hypothesis): row . x counts every term k times, k = number of x symbols with exponent exactly 1 in it *)
+Theorem C18_expr_as_matrix_general :
+  forall (R : Type) (rO rI : R) (radd rmul rsub : R -> R -> R) (ropp : R -> R),
+  ring_theory rO rI radd rmul rsub ropp (@eq R) ->
+  forall (rho : nat -> R) (xs : list nat) (p : xpoly R),
+  dot R rO rI radd rmul rho (expr_row xs p) xs
+  = esum R rO radd (map (fun t => nsmul R rO radd (kone xs (snd t)) (eval_term R rI rmul rho t)) p).
+Proof. exact expr_row_general. Qed.
+Print Assumptions C18_expr_as_matrix_general.
+
+(* (b) why the property says "linear": over a ring without additive torsion (Z, Q) the polynomial row . x equals p
+   (same coefficient at every monomial) IFF every monomial of p either has exactly one x symbol with exponent 1 or has
+   total coefficient 0.  A non-zero constant term, x1*x1, x1*x2 (k = 0, 0, 2) each refute the identity. *)
+Theorem C18_expr_as_matrix_identity_iff :
+  forall (R : Type) (rO rI : R) (radd rmul rsub : R -> R -> R) (ropp : R -> R),
+  ring_theory rO rI radd rmul rsub ropp (@eq R) ->
+  forall (xs : list nat) (p : xpoly R), torsion_free R rO radd ->
+  (peq R rO radd (row_poly (mkOps R radd rsub rmul ropp rO rI) (expr_row xs p) xs) p
+   <-> (forall m, kone xs m = 1%nat \/ coef_at R rO radd m p = rO)).
+Proof. exact row_identity_iff. Qed.
+Print Assumptions C18_expr_as_matrix_identity_iff.
+
+Theorem C18_expr_as_matrix_nonlinear_refuted :
+  torsion_free Z 0 Z.add /\
+  (let xs := [10; 11]%nat in
+   let fails p := ~ peq Z 0 Z.add (row_poly Zops (expr_row xs p) xs) p in
+   fails [(3, [0]%nat)] /\ fails [(1, [10; 10]%nat)] /\ fails [(1, [10; 11]%nat)] /\
+   (forall rho : nat -> Z,
+      dot Z 0 1 Z.add Z.mul rho (expr_row xs [(1, [10; 11]%nat)]) xs = 2 * (rho 10%nat * rho 11%nat))).
+Proof.
+  exact (conj torsion_free_Z (conj ex_constant_refuted (conj ex_quadratic_refuted
+          (conj ex_bilinear_refuted ex_bilinear_twice)))).
+Qed.
+Print Assumptions C18_expr_as_matrix_nonlinear_refuted.
+
+(* (c) for linear y the entries of A contain no x symbol (A is a matrix of the OTHER inputs), and the value of such an
+   entry does not depend on the values given to the xs *)
+Theorem C18_expr_as_matrix_entries_free_of_x :
+  forall (C : Type) (xs : list nat) (ys : list (xpoly C)),
+  forallb (linear_in xs) ys = true ->
+  Forall (Forall (fun a => free_of xs a = true)) (expr_matrix xs ys).
+Proof. exact (@expr_matrix_entries_free). Qed.
+Print Assumptions C18_expr_as_matrix_entries_free_of_x.
+Theorem C18_expr_as_matrix_entries_value :
+  forall (R : Type) (rO rI : R) (radd rmul : R -> R -> R) (rho rho' : nat -> R) (xs : list nat) (p : xpoly R),
+  (forall v, ~ In v xs -> rho v = rho' v) -> free_of xs p = true ->
+  eval R rO rI radd rmul rho p = eval R rO rI radd rmul rho' p.
+Proof. exact eval_free_indep. Qed.
+Print Assumptions C18_expr_as_matrix_entries_value.
+
+(* (d) res_like: row r of the selected matrix is the row of the full matrix at the (first) position where y stores the
+   r-th key of res_like, a row of empty sums when y does not store it; and the returned pair satisfies A . x = y *)
+Theorem C18_expr_as_matrix_res_like :
+  forall (C : Type) (xs : list nat) (ks : list Z) (y : mv (xpoly C)) (r : nat) (k : Z),
+  nth_error ks r = Some k ->
+  let Asel := expr_matrix xs (map snd (res_like_sel ks y)) in
+  let Afull := expr_matrix xs (map snd y) in
+  match zindex k (keys y) with
+  | Some i => nth_error Asel r = nth_error Afull i /\ nth_error Afull i <> None
+  | None => nth_error Asel r = Some (map (fun _ => []) xs)
+  end.
+Proof. exact (@res_like_rows). Qed.
+Print Assumptions C18_expr_as_matrix_res_like.
+Theorem C18_expr_as_matrix_sound :
+  forall (R : Type) (rO rI : R) (radd rmul rsub : R -> R -> R) (ropp : R -> R),
+  ring_theory rO rI radd rmul rsub ropp (@eq R) ->
+  forall (rho : nat -> R) (res_like : option (list Z)) (x : mv nat) (y : mv (xpoly R)),
+  forallb (linear_in (map snd x)) (map snd y) = true -> NoDup (map snd x) ->
+  let Ay := expr_as_matrix res_like x y in
+  mat_vec R rO rI radd rmul rho (fst Ay) (map snd x) = map (eval R rO rI radd rmul rho) (map snd (snd Ay)).
+Proof. exact expr_as_matrix_sound. Qed.
+Print Assumptions C18_expr_as_matrix_sound.
+
+(* (e) the hypothesis of (a) is PROVED for the main use: every expression e built from the last input x, other inputs
+   env n whose coefficients are x-free polynomials, the nine products, +, - and neg / reverse / involute / conjugate /
+   hodge / unhodge that has degree 1 in x (gdeg e = Some 1: every product has x in exactly one factor, sums have
+   summands of degree 1) yields, on a symbolic x with distinct symbols, a y that is linear in x; the returned pair
+   satisfies A . x = y; and the values of y are the SAME expression evaluated numerically on the values of the inputs *)
+Theorem C18_expr_as_matrix_expression :
+  forall (R : Type) (rO rI : R) (radd rmul rsub : R -> R -> R) (ropp : R -> R),
+  ring_theory rO rI radd rmul rsub ropp (@eq R) ->
+  forall (rho : nat -> R) (A : alg) (e : gexpr) (res_like : option (list Z)) (x : mv nat)
+         (env : nat -> mv (xpoly R)),
+  gdeg e = Some 1%nat -> NoDup (map snd x) ->
+  (forall n, Natural.all_coeffs (fun p => free_of (map snd x) p = true) (env n)) ->
+  let O := mkOps R radd rsub rmul ropp rO rI in
+  let xs := map snd x in
+  let y := geval (Fops O) A env (sym_mv O x) e in
+  let Ay := expr_as_matrix res_like x y in
+  forallb (linear_in xs) (map snd y) = true /\
+  mat_vec R rO rI radd rmul rho (fst Ay) xs = map (eval R rO rI radd rmul rho) (map snd (snd Ay)) /\
+  Composite.map_mv (eval R rO rI radd rmul rho) y
+  = geval O A (fun n => Composite.map_mv (eval R rO rI radd rmul rho) (env n)) (Composite.map_mv rho x) e.
+Proof. exact expr_as_matrix_of_expression. Qed.
+Print Assumptions C18_expr_as_matrix_expression.
+
+(* what a passing correspondence case of tools/props/C18.py (eam_case evaluated on exact rationals: yfull = expr(inputs)
+   as the harness computed it, (A_impl, y_impl) what the implementation returned) establishes: the returned y has the
+   keys and the values of the (selected) expression result, and A_impl . x = y_impl at every rational valuation *)
+Theorem C18_expr_as_matrix_check_sound :
+  forall (rho : nat -> Qcanon.Qc) (res_like : option (list Z)) (x : mv nat) (yfull y_impl : mv (xpoly Qcanon.Qc))
+         (A_impl : list (list (xpoly Qcanon.Qc))),
+  eam_case_Qc res_like x yfull A_impl y_impl = true ->
+  forallb (linear_in (map snd x)) (map snd y_impl) = true ->
+  keys y_impl = keys (snd (expr_as_matrix res_like x yfull)) /\
+  map (eval Qcanon.Qc Qc0 Qc1 Qcanon.Qcplus Qcanon.Qcmult rho) (map snd y_impl)
+  = map (eval Qcanon.Qc Qc0 Qc1 Qcanon.Qcplus Qcanon.Qcmult rho) (map snd (snd (expr_as_matrix res_like x yfull))) /\
+  mat_vec Qcanon.Qc Qc0 Qc1 Qcanon.Qcplus Qcanon.Qcmult rho A_impl (map snd x)
+  = map (eval Qcanon.Qc Qc0 Qc1 Qcanon.Qcplus Qcanon.Qcmult rho) (map snd y_impl).
+Proof. exact eam_case_Qc_sound. Qed.
+Print Assumptions C18_expr_as_matrix_check_sound.
+
+(* non-vacuity: Theory/ExprMatrix.v ex_linear_hyp / ex_linear (a), ex_cubic_identity (the identity without linearity),
+   ex_entries_free (c), ex_res_like (d), ex_sandwich_hyp / ex_sandwich_row / ex_sandwich_numeric (e: R * x * ~R in
+   Cl(3,0), first row (R1^2 - R2^2 - R3^2, 2 R1 R2, 2 R1 R3)) *)
 
 (* ---- source pins: the functions whose hand-written model carries the theorems above are still, textually (after
    ast normalisation), the functions the model was validated against; an edit breaks Bridge/Pins_C18.v ---- *)
